@@ -911,13 +911,13 @@ CHECK_DEADLOCK FALSE
 SAFETY = ["PostStates", "NoLateEvent", "SettledOK", "WitnessProbe"]
 WITNESSES = ["WitCloseAtIceConn", "WitCloseAtDtlsHs", "WitCloseFlowing", "WitCloseInNeg", "WitAutoClose",
              "WitSecondWaits", "WitSecondAfter", "WitPeerGoneFirst", "WitRcvStartedWait", "WitIceFix", "WitLateChannel",
-             "WitIceWaitClosing"]
+             "WitIceWaitClosing", "WitTimerAtClose"]
 # deviation -> what TLC must report with exactly that defect re-enabled in the model
 DEVIATIONS = {
     "ConsentAfterClose": "SettledOK", "SigAfterClose": "PostStates", "TrackNotEnded": "SettledOK",
     "MediaAfterClose": "SettledOK", "NoRtcpWait": "SettledOK", "SkipSctpStop": "PostStates",
     "NotIdempotent": "NoLateEvent", "DecoderNotJoined": "SettledOK", "SctpStopGuard": "PostStates",
-    "ChanOnClosed": "PostStates", "StartEventSkipped": "SettledOK",
+    "ChanOnClosed": "PostStates", "StartEventSkipped": "SettledOK", "ReconfigTimerSurvivesStop": "SettledOK",
 }
 
 
@@ -1453,7 +1453,7 @@ def tlc_chain(sc, thorough, out):
                 return
         # every deviation must break the model (one run: the deviation is part of the configuration)
         devs = sorted(DEVIATIONS)
-        late = ["ChanOnClosed", "SctpStopGuard"]          # need the remote side to leave and a late channel
+        late = ["ChanOnClosed", "SctpStopGuard", "ReconfigTimerSurvivesStop"]   # need the remote side to leave / application actions
         res = T.tlc(sc, "PcLife", model_cfg(["md"], BOTH_ROLES if thorough else ["answerer"], [False], ["u1", "u2"],
                                             invariants=["DevProbe"], props=[], devsel=[d for d in devs if d not in late]),
                     workers=W, timeout=900)
